@@ -17,13 +17,16 @@ theorem C09_deadline (env : Env) (f0 : Uid → Fields) (res0 : List (Option Nat 
 theorem C09_encode (env : Env) (f0 : Uid → Fields) (res0 : List (Option Nat × Cal)) (o : Output)
     (hf : env.flagsOK) (hn : noFixedDates env f0 = true) (h : backwardCalc env f0 res0 = .ok o) :
     c09Encode env o = true := by
-  sorry
+  exact backwardCalc_c09Encode env f0 res0 o hf hn h
 
 /-- every dependency between member tasks is respected and the schedule is late-packed -/
 theorem C09_partial (env : Env) (f0 : Uid → Fields) (res0 : List (Option Nat × Cal)) (o : Output)
     (hf : env.flagsOK) (hn : noFixedDates env f0 = true) (hs : noSummaryLinks env = true)
     (h : backwardCalc env f0 res0 = .ok o) :
     c09Deps env o = true ∧ c09LatePacked env o = true := by
+  -- FALSE as stated (kernel-checked counterexamples `C09CE.C09_partial_false_asym`, `…_parent` in
+  -- Lemmas/SchedC09.lean); the corrected statement `C09_partial_v2` (extra hypotheses `env.parentsOK`,
+  -- `env.linksSym`, `outsideLeaves env`, outside successors are leaves) is proved there
   sorry
 
 theorem C09_full_fails :
